@@ -238,7 +238,7 @@ def asciiNCName (s : Str) : Bool :=
   | c :: cs => (c.isAlpha || c = '_') && cs.all (fun d => d.isAlphanum || d = '.' || d = '-' || d = '_')
 
 def asciiUri (s : Str) : Bool :=
-  !s.isEmpty && s.all (fun c => c.isAlphanum || ";/?:@&=+$.-_!~*'()%#".toList.contains c)
+  !s.isEmpty && s.all (fun c => c.isAlphanum || ";/?:@&=+$.-_!~*'()%#,".toList.contains c)
 
 def benv : BEnv := ⟨tblEnv, asciiNCName, asciiUri⟩
 
